@@ -53,6 +53,7 @@ class Scratch:
 
 
 PARSER_ONLY_VSPEC = ["perr"]     # spec modules that mention items of parser.rs
+NECESSITY_ONLY_VSPEC = ["boundary", "nec", "c15"]   # spec modules that mention nothing outside necessity.rs
 
 
 def build_overlay(scratch_dir, vc_files=None, mutate=None):
@@ -69,6 +70,17 @@ def build_overlay(scratch_dir, vc_files=None, mutate=None):
         for m in PARSER_ONLY_VSPEC:
             text = text.replace(f"pub mod {m};\n", "").replace(f"pub use {m}::*;\n", "")
             os.remove(os.path.join(src_out, "vspec", m + ".rs"))
+        open(modrs, "w", encoding="utf-8").write(text)
+    if vc_files is not None and "element.vc" not in vc_files:
+        # element.rs and parser.rs stay un-annotated: keep only the spec modules that speak about necessity.rs
+        modrs = os.path.join(src_out, "vspec", "mod.rs")
+        text = open(modrs, encoding="utf-8").read()
+        for m in re.findall(r"^pub mod (\w+);$", text, re.M):
+            if m not in NECESSITY_ONLY_VSPEC:
+                text = text.replace(f"pub mod {m};\n", "").replace(f"pub use {m}::*;\n", "")
+                pth = os.path.join(src_out, "vspec", m + ".rs")
+                if os.path.exists(pth):
+                    os.remove(pth)
         open(modrs, "w", encoding="utf-8").write(text)
     vcs = [os.path.join(CONTRACTS, f) for f in (vc_files or VC_ORDER)]
     ov = Overlay(os.path.join(REPO, "src"), vcs)
